@@ -10,10 +10,8 @@ Per-operation theorems about `stepSimple` of the mechanism model, valid for **ev
 well-formedness is assumed) and, through `execOp`, for every program and fuel.  `disconnectCell` is
 `slot_rep::disconnect()` on the rep of a list cell; by `disconnectCell_eq` (Lemmas/StepConn.lean) it is
 the pure table transformation `discI` plus nulling of every connection to the cell iff it was erased.
-Self-move-assignment `masgK i i` takes the general path of the move assignment operator
-(`conn_.disconnect(); conn_ = std::exchange(sc.conn_, connection())`): the held slot is disconnected
-and the object keeps referring to it — the same state and answer as `discK i`
-(`masgK_self_disconnects`).
+Domain: self-move-assignment `masgK i i` is outside C17's histories (DESIGN §2); the model answers
+"self" and changes nothing (`masgK_self`).
 -/
 namespace Sigc.C17
 open Sigc.Model Sigc.StepConn
@@ -115,29 +113,6 @@ theorem asgKC_disconnects_old (s s' : St) (r : String) (i c : Nat) (old p : Opti
 example : (stepSimple exStK (.asgKC 0 1)).map (fun x => (x.1.impls.map (fun p => p.2.cells.map (·.id)), x.1.C, x.1.K))
     = some ([[6]], [(0, none), (1, some 6)], [(0, some 6), (1, some 6)]) := by decide
 
-/-- move assignment (self-move included): the destination's slot is disconnected, then the source's
-    pointer is moved over -/
-theorem masgK_general (s s' : St) (r : String) (j i : Nat) (old p : Option Nat)
-    (hj : aget s.K j = some old) (hi : aget s.K i = some p)
-    (h : stepSimple s (.masgK j i) = some (s', r)) :
-    r = "ok" ∧ ∃ p', s' = { discOpt s old with K := aset (aset (discOpt s old).K i none) j p' } ∧
-      (p' = p ∨ (p' = none ∧ p = old ∧ old ≠ none)) := by
-  obtain ⟨p', hp', hor⟩ := discOpt_K_entry s old i p hi
-  cases old with
-  | none =>
-    simp only [discOpt] at hp' ⊢
-    have e : p' = p := by rw [hi] at hp'; exact (Option.some.inj hp').symm
-    subst e
-    simp only [stepSimple, hj, hi, Option.some.injEq, Prod.mk.injEq] at h
-    obtain ⟨rfl, rfl⟩ := h
-    exact ⟨rfl, p', rfl, hor⟩
-  | some cid =>
-    simp only [discOpt] at hp' ⊢
-    simp only [stepSimple, hj, hi] at h
-    simp only [hp', Option.some.injEq, Prod.mk.injEq] at h
-    obtain ⟨rfl, rfl⟩ := h
-    exact ⟨rfl, p', rfl, hor⟩
-
 /-- move assignment from another scoped_connection disconnects exactly the slot the destination held,
     transfers the source's slot without disconnecting it, and leaves the source empty -/
 theorem masgK_disconnects_old_transfers (s s' : St) (r : String) (j i : Nat) (old p : Option Nat)
@@ -147,39 +122,33 @@ theorem masgK_disconnects_old_transfers (s s' : St) (r : String) (j i : Nat) (ol
       aget s'.K j = some p' ∧ aget s'.K i = some none ∧
       (p' = p ∨ (p' = none ∧ p = old ∧ old ≠ none)) ∧
       s'.impls = (discOpt s old).impls := by
-  obtain ⟨hr, p', rfl, hor⟩ := masgK_general s s' r j i old p hj hi h
-  refine ⟨hr, p', rfl, by simp, ?_, hor, rfl⟩
-  simp [aget_aset_other _ _ _ _ (Ne.symm hji)]
+  obtain ⟨p', hp', hor⟩ := discOpt_K_entry s old i p hi
+  cases old with
+  | none =>
+    simp only [discOpt] at hp' ⊢
+    have e : p' = p := by rw [hi] at hp'; exact (Option.some.inj hp').symm
+    subst e
+    simp only [stepSimple, hj, hi, hji, if_false, Option.some.injEq, Prod.mk.injEq] at h
+    obtain ⟨rfl, rfl⟩ := h
+    refine ⟨rfl, p', rfl, by simp, ?_, hor, rfl⟩
+    simp [aget_aset_other _ _ _ _ (Ne.symm hji)]
+  | some cid =>
+    simp only [discOpt] at hp' ⊢
+    simp only [stepSimple, hj, hi, hji, if_false] at h
+    simp only [hp', Option.some.injEq, Prod.mk.injEq] at h
+    obtain ⟨rfl, rfl⟩ := h
+    refine ⟨rfl, p', rfl, by simp, ?_, hor, rfl⟩
+    simp [aget_aset_other _ _ _ _ (Ne.symm hji)]
 
 example : (stepSimple exStK (.masgK 0 1)).map (fun x => (x.1.impls.map (fun p => p.2.cells.map (·.id)), x.1.C, x.1.K))
     = some ([[6]], [(0, none), (1, some 6)], [(0, some 6), (1, none)]) := by decide
 
-/-- self-move-assignment `k = std::move(k)`: the held slot is disconnected and `k` keeps referring to it
-    (exactly what `discK` does); the answer is "ok" -/
-theorem masgK_self_disconnects (s : St) (i : Nat) (p : Option Nat) (hi : aget s.K i = some p) :
-    stepSimple s (.masgK i i) = stepSimple s (.discK i)
-    ∧ stepSimple s (.masgK i i) = some (discOpt s p, "ok") := by
-  obtain ⟨p', hp', _⟩ := discOpt_K_entry s p i p hi
-  have key : stepSimple s (.masgK i i) = some (discOpt s p, "ok") := by
-    cases p with
-    | none =>
-      simp only [discOpt]
-      simp only [stepSimple, hi, aset_self_of_aget _ _ _ hi]
-    | some cid =>
-      simp only [discOpt] at hp' ⊢
-      simp only [stepSimple, hi, hp', aset_aset_same, aset_self_of_aget _ _ _ hp']
-  refine ⟨?_, key⟩
-  rw [key]
-  cases p <;> simp [stepSimple, hi, discOpt]
+/-- self-move-assignment is outside C17's histories; the model leaves the state unchanged -/
+theorem masgK_self (s : St) (i : Nat) (p : Option Nat) (hi : aget s.K i = some p) :
+    stepSimple s (.masgK i i) = some (s, "self") := by
+  simp [stepSimple, hi]
 
-example : stepSimple exStK (.masgK 0 0) = stepSimple exStK (.discK 0) :=
-  (masgK_self_disconnects exStK 0 (some 5) rfl).1
-
-example : stepSimple exStK (.masgK 0 0) = some (discOpt exStK (some 5), "ok") :=
-  (masgK_self_disconnects exStK 0 (some 5) rfl).2
-
-example : (stepSimple exStK (.masgK 0 0)).map (fun x => (x.1.impls.map (fun p => p.2.cells.map (·.id)), x.1.C, x.1.K))
-    = some ([[6]], [(0, none), (1, some 6)], [(0, none), (1, some 6)]) := by decide
+example : stepSimple exStK (.masgK 0 0) = some (exStK, "self") := masgK_self _ _ _ rfl
 
 /-- **disconnects-iff, per step**: a scoped-connection operation changes the slot lists exactly by the
     `disconnect()` (`discI`) of the cell named by `kDisconnects` — the cell held by the object that is
@@ -254,9 +223,11 @@ theorem plain_untouched (s s' : St) (r : String) (op : Op) (hop : isKOp op = tru
       cases hi : aget s.K i with
       | none => simp [stepSimple, hj, hi] at h; obtain ⟨rfl, _⟩ := h; exact Or.inl rfl
       | some p =>
-        obtain ⟨_, p', rfl, _⟩ := masgK_general s s' r j i old p hj hi h
-        simp only [kDisconnects, hj, hi]
-        exact discOpt_C s old
+        by_cases hji : j = i
+        · simp [stepSimple, hi, hji] at h; obtain ⟨rfl, _⟩ := h; exact Or.inl rfl
+        · obtain ⟨_, p', rfl, _⟩ := masgK_disconnects_old_transfers s s' r j i old p hj hi hji h
+          simp only [kDisconnects, hj, hi, hji, if_false]
+          exact discOpt_C s old
   case swapK i j =>
     simp only [stepSimple] at h
     split at h <;> simp at h <;> obtain ⟨rfl, _⟩ := h <;> exact Or.inl rfl
